@@ -228,7 +228,7 @@ func tail(s string) string {
 // canon is llvm-as | llvm-dis like llvmoracle.Canon, but keeps the source_filename line (a
 // position of this property) and reports a crash of llvm-dis as "LLVM does not read this"
 // instead of aborting the check (llvm-dis 14 crashes on some GC names it does not know).
-func canon(p *position, text string) (string, bool, string) {
+func canon(p *position, text string, asOnly bool) (string, bool, string) {
 	bc, se, code, err := mbt.Tool([]byte(text), 60*time.Second, "llvm-as", "-o", "-", "-")
 	if err != nil {
 		mbt.Infra("llvm-as: %v", err)
@@ -239,8 +239,8 @@ func canon(p *position, text string) (string, bool, string) {
 	if code != 0 {
 		return "", false, strings.TrimSpace(string(se))
 	}
-	if p != nil && p.asOnly {
-		return "", true, ""
+	if asOnly || (p != nil && p.asOnly) {
+		return disCrashed, true, ""
 	}
 	so, se, code, err := mbt.Tool(bc, 60*time.Second, "llvm-dis", "-o", "-", "-")
 	if err != nil {
@@ -308,16 +308,21 @@ func tokenOf(p *position, tok string) string {
 	return tok
 }
 
-func (c *checker) codeToSpec(p *position, bs []string) {
+// codeToSpec runs the code -> spec direction for the given positions and byte strings:
+// print through the API, TLC decodes the printed tokens (one run), LLVM reads the output,
+// TLC decodes LLVM's spelling (one run), verdicts, parse back.
+func (c *checker) codeToSpec(ps []*position, strs func(p *position) []string) {
 	var all []*obs
-	for _, b := range bs {
-		if !permitted(p, b) {
-			continue
-		}
-		c.rep.Count("T|"+p.name+"|"+b, true)
-		o := c.printOne(p, b)
-		if o.printed {
-			all = append(all, o)
+	for _, p := range ps {
+		for _, b := range strs(p) {
+			if !permitted(p, b) {
+				continue
+			}
+			c.rep.Count("T|"+p.name+"|"+b, true)
+			o := c.printOne(p, b)
+			if o.printed {
+				all = append(all, o)
+			}
 		}
 	}
 	if len(all) == 0 {
@@ -326,13 +331,14 @@ func (c *checker) codeToSpec(p *position, bs []string) {
 	// 1. TLC decodes the printed tokens with LLVM's lexer rules.
 	rows := make([]row, len(all))
 	for i, o := range all {
-		rows[i] = row{K: "tok", Kind: p.kind, Bytes: ints(o.it.b), Tok: ints(tokenOf(p, o.tok)), Pos: p.name, Src: "printed"}
+		rows[i] = row{K: "tok", Kind: o.pos.kind, Bytes: ints(o.it.b), Tok: ints(tokenOf(o.pos, o.tok)), Pos: o.pos.name, Src: "printed"}
 	}
-	for i, cl := range c.judge(rows, p.name+"/printed") {
+	for i, cl := range c.judge(rows, "printed") {
 		all[i].specBad = cl
 	}
 	// (c) two different byte strings must not print alike
 	for _, o := range all {
+		p := o.pos
 		key := p.name + "|" + o.tok
 		if prev, ok := c.uniq[key]; ok && prev != o.it.b {
 			c.rep.Fail(mbt.Failure{Signature: "C11|" + p.enc + "|two names print alike|" + shape(o.it.b),
@@ -340,26 +346,34 @@ func (c *checker) codeToSpec(p *position, bs []string) {
 		}
 		c.uniq[key] = o.it.b
 	}
-	// 2. LLVM reads the library's output: tokens the spec accepts in batches, the others one by one.
-	var good, single []*obs
+	// 2. LLVM reads the library's output: tokens the spec accepts in batches per position, the others one by one.
+	good := map[*position][]*obs{}
+	var single []*obs
 	for _, o := range all {
-		if o.specBad == "" && !p.single {
-			good = append(good, o)
+		if o.specBad == "" && !o.pos.single && !o.pos.hidden(o.it.b) {
+			good[o.pos] = append(good[o.pos], o)
 		} else {
 			single = append(single, o)
 		}
 	}
-	var batches [][]*obs
-	for i := 0; i < len(good); i += batchSize {
-		j := i + batchSize
-		if j > len(good) {
-			j = len(good)
+	type batchT struct {
+		p  *position
+		os []*obs
+	}
+	var batches []batchT
+	for _, p := range ps {
+		g := good[p]
+		for i := 0; i < len(g); i += batchSize {
+			j := i + batchSize
+			if j > len(g) {
+				j = len(g)
+			}
+			batches = append(batches, batchT{p, g[i:j]})
 		}
-		batches = append(batches, good[i:j])
 	}
 	var mu sync.Mutex
 	llvmoracle.Parallel(len(batches), func(k int) {
-		batch := batches[k]
+		p, batch := batches[k].p, batches[k].os
 		its := make([]item, len(batch))
 		for i, o := range batch {
 			its[i] = item{idx: 10 + i, ord: i, b: o.it.b}
@@ -373,7 +387,7 @@ func (c *checker) codeToSpec(p *position, bs []string) {
 		var out string
 		ok := false
 		if !pan {
-			out, ok, _ = canon(p, text)
+			out, ok, _ = canon(p, text, false)
 		}
 		if !ok || out == disCrashed {
 			mu.Lock()
@@ -395,7 +409,8 @@ func (c *checker) codeToSpec(p *position, bs []string) {
 	})
 	llvmoracle.Parallel(len(single), func(k int) {
 		o := single[k]
-		out, ok, diag := canon(p, o.text)
+		p := o.pos
+		out, ok, diag := canon(p, o.text, p.hidden(o.it.b))
 		o.llvmOK, o.llvmDiag = ok, diag
 		if ok {
 			tok, found := p.find(out, o.it)
@@ -416,16 +431,16 @@ func (c *checker) codeToSpec(p *position, bs []string) {
 	var lidx []int
 	for i, o := range all {
 		if o.llvmOK {
-			lrows = append(lrows, row{K: "tok", Kind: p.kind, Bytes: ints(o.it.b), Tok: ints(tokenOf(p, o.llvmTok)), Pos: p.name, Src: "llvm"})
+			lrows = append(lrows, row{K: "tok", Kind: o.pos.kind, Bytes: ints(o.it.b), Tok: ints(tokenOf(o.pos, o.llvmTok)), Pos: o.pos.name, Src: "llvm"})
 			lidx = append(lidx, i)
 		}
 	}
-	for i, cl := range c.judge(lrows, p.name+"/llvm") {
+	for i, cl := range c.judge(lrows, "llvm") {
 		all[lidx[i]].llvmBad = cl
 	}
 	// 4. verdicts
 	for _, o := range all {
-		b := o.it.b
+		b, p := o.it.b, o.pos
 		llvmReadsBytes := o.llvmOK && o.llvmBad == ""
 		switch {
 		case o.specBad == "" && llvmReadsBytes:
@@ -454,7 +469,7 @@ func (c *checker) codeToSpec(p *position, bs []string) {
 		if o.specBad != "" && !(o.llvmOK && o.llvmBad == "") {
 			continue
 		}
-		c.parseBack("T", p, o.it, o.text, o.tok)
+		c.parseBack("T", o.pos, o.it, o.text, o.tok)
 	}
 }
 
@@ -565,12 +580,21 @@ func (c *checker) specToCodeTag(p *position, use []gcase) {
 	if p.single {
 		step = 1
 	}
-	for i := 0; i < len(use); i += step {
+	// items whose reading LLVM cannot show go last, one per module
+	sort.SliceStable(use, func(a, b int) bool { return !p.hidden(use[a].b) && p.hidden(use[b].b) })
+	nvis := 0
+	for nvis < len(use) && !p.hidden(use[nvis].b) {
+		nvis++
+	}
+	for i := 0; i < nvis; i += step {
 		j := i + step
-		if j > len(use) {
-			j = len(use)
+		if j > nvis {
+			j = nvis
 		}
 		jobs = append(jobs, job{i, j})
+	}
+	for i := nvis; i < len(use); i++ {
+		jobs = append(jobs, job{i, i + 1})
 	}
 	check := func(lo, hi int) bool {
 		its := make([]item, hi-lo)
@@ -579,8 +603,8 @@ func (c *checker) specToCodeTag(p *position, use []gcase) {
 			its[i-lo] = item{idx: 10 + i - lo, ord: i - lo, b: use[i].b}
 			toks[i-lo] = full(use[i])
 		}
-		out, ok, diag := canon(p, p.text(toks, its))
-		if ok && out == disCrashed {
+		out, ok, diag := canon(p, p.text(toks, its), hi-lo == 1 && p.hidden(use[lo].b))
+		if ok && out == disCrashed && !p.asOnly {
 			if hi-lo > 1 {
 				return false
 			}
@@ -728,7 +752,7 @@ func (c *checker) encoders(bs []string) {
 		}
 		p := byPos[mt.e.pos]
 		it := item{idx: 7, ord: 0, b: mt.b}
-		out, ok, diag := canon(p, p.text([]string{str(r.Tok)}, []item{it}))
+		out, ok, diag := canon(p, p.text([]string{str(r.Tok)}, []item{it}), p.hidden(mt.b))
 		results[k] = res{ok: ok, diag: diag}
 		if ok {
 			results[k].tok, _ = p.find(out, it)
@@ -795,7 +819,7 @@ func (c *checker) idsStayIDs() {
 	fail := func(what string) {
 		c.rep.Fail(mbt.Failure{Signature: "C11|ids|unnamed entity not read back as an ID", What: what + ":\n" + text, Case: map[string]interface{}{"dir": "ids"}})
 	}
-	if _, ok, diag := canon(nil, text); !ok {
+	if _, ok, diag := canon(nil, text, false); !ok {
 		fail("llvm-as rejects the printed module of unnamed entities: " + diag)
 		return
 	}
@@ -928,6 +952,10 @@ func Run(tier, replay string) {
 
 	// byte strings for the code -> spec direction
 	bs := stringsUpTo(classReps, maxLen)
+	seenExh := map[string]bool{}
+	for _, b := range bs {
+		seenExh[b] = true
+	}
 	bs = append(bs, extras...)
 	nrand := 150
 	if tier == "thorough" {
@@ -946,22 +974,40 @@ func Run(tier, replay string) {
 
 	t0 := time.Now()
 	only := os.Getenv("VERIF_C11_POS") // development aid: restrict to one position
+	var ps []*position
 	for _, p := range positions() {
-		if only != "" && p.name != only {
-			continue
+		if only == "" || p.name == only {
+			ps = append(ps, p)
 		}
-		t1 := time.Now()
-		c.codeToSpec(p, uniq)
-		rep.Extra["wall_s_code_to_spec_"+p.name] = time.Since(t1).Seconds()
 	}
+	// a position that takes one module per string gets the short strings only in the quick tier
+	// (its printer, enc.Quote, is shared with the other string positions)
+	var short []string
+	for _, b := range uniq {
+		if len(b) <= 1 || !seenExh[b] {
+			short = append(short, b)
+		}
+	}
+	c.codeToSpec(ps, func(p *position) []string {
+		if p.single && tier == "quick" {
+			return short
+		}
+		return uniq
+	})
 	rep.Extra["wall_s_code_to_spec"] = time.Since(t0).Seconds()
 	t0 = time.Now()
-	for _, p := range positions() {
-		if only != "" && p.name != only {
-			continue
-		}
+	for _, p := range ps {
 		t1 := time.Now()
-		c.specToCode(p, byKind[p.kind])
+		cases := byKind[p.kind]
+		if p.single && tier == "quick" {
+			cases = nil
+			for _, g := range byKind[p.kind] {
+				if len(g.b) <= 1 {
+					cases = append(cases, g)
+				}
+			}
+		}
+		c.specToCode(p, cases)
 		rep.Extra["wall_s_spec_to_code_"+p.name] = time.Since(t1).Seconds()
 	}
 	rep.Extra["wall_s_spec_to_code"] = time.Since(t0).Seconds()
@@ -1017,7 +1063,7 @@ func runReplay(c *checker, path string) {
 			if p == nil {
 				continue
 			}
-			c.codeToSpec(p, []string{b})
+			c.codeToSpec([]*position{p}, func(*position) []string { return []string{b} })
 			// the reference spelling: ask the spec
 			c.replayG(p, b)
 		case "enc":
